@@ -248,6 +248,42 @@ def search(ck, drv, tier, seed):
                 ck.finding("flow:samples-do-not-follow-density:context-dtype:%s" % oname,
                            "context dtype %s: samples dtype %s, KS distance %.4f from the standard normal, %d distinct values in %d"
                            % (dname, smp.dtype, ks, distinct, v.numel()), case)
+    from nflows.flows.base import Flow
+    from nflows.transforms import standard
+    # ---- flows over a MADE mixture base (several clearly unequal components): samples against the integrated density, per context row
+    from nflows.distributions import mixture as mix_
+    for K in (3, 4):
+        torch.manual_seed(seed + 200 + K)
+        base_ = mix_.MADEMoG(1, 8, 2, num_blocks=1, num_mixture_components=K, custom_initialization=True)
+        gg = torch.Generator(); gg.manual_seed(seed + 31 * K)
+        with torch.no_grad():
+            for prm in base_.parameters():
+                prm.add_(torch.randn(prm.shape, generator=gg) * 0.9)
+        flm = Flow(standard.PointwiseAffineTransform(0.4, 1.5), base_).eval()
+        ctxm = torch.randn(2, 2, generator=gg)
+        ck.case(("ks-mog", K), nontrivial=True)
+        gridm = torch.linspace(-60, 60, 240001, dtype=torch.float64)
+        for row in range(2):
+            with torch.no_grad():
+                densm = torch.exp(flm.log_prob(gridm[:, None].float(), ctxm[row:row + 1].expand(gridm.shape[0], -1)).double())
+                torch.manual_seed(seed + K + row)
+                sm = attempt(flm.sample, 50000, ctxm[row:row + 1])
+            if sm[0] != "ok":
+                ck.finding("flow:sample-fails:Flow(affine, MADEMoG)", "%s %s" % (sm[1], sm[2]), {"search": "ks-mog", "K": K, "seed": seed})
+                break
+            sv = sm[1].reshape(-1).double().sort().values
+            stepm = float(gridm[1] - gridm[0])
+            cdfm = torch.cat([torch.zeros(1, dtype=torch.float64), torch.cumsum((densm[1:] + densm[:-1]) * 0.5 * stepm, 0)])   # trapezoids
+            empm = torch.arange(1, sv.numel() + 1, dtype=torch.float64) / sv.numel()
+            idxm = torch.searchsorted(gridm, sv).clamp(min=1, max=gridm.numel() - 1)
+            fracm = ((sv - gridm[idxm - 1]) / stepm).clamp(0, 1)
+            cdf_at = cdfm[idxm - 1] + fracm * (cdfm[idxm] - cdfm[idxm - 1])                                            # interpolated at the sample
+            ksm = float(torch.maximum((cdf_at - empm).abs(), (cdf_at - (empm - 1.0 / sv.numel())).abs()).max())
+            if ksm > 0.0135 and abs(float(cdfm[-1]) - 1) < 1e-3:      # 50000 samples: the 1e-6 critical value is about 0.012
+                ck.finding("flow:samples-do-not-follow-density:Flow(affine, MADEMoG)",
+                           "%d mixture components, context row %d: KS distance %.4f between 50000 samples and the integrated density" % (K, row, ksm),
+                           {"search": "ks-mog", "K": K, "row": row, "seed": seed})
+                break
     # ---- the samples follow exp(log_prob): 1-D flow, KS distance against the quadrature CDF (fixed seed; search aid)
     from nflows.flows.base import Flow
     from nflows.transforms import base, nonlinearities as nl, standard
